@@ -11,6 +11,8 @@ import Dyce.RollerModel
 import Dyce.RollerSpec
 import Dyce.RollModel
 import Dyce.HeapModel
+import Dyce.RngModel
+import Dyce.GuardModel
 /-! Line protocol over the executable model (import-free, so it links as a `lean_exe`).
 Every op line is `OPCODE` followed by space-separated integers; lists are length-prefixed. -/
 namespace Dyce.Driver
@@ -490,6 +492,97 @@ def opHEAP : P String := do
     ++ " ".intercalate (hp.ps.map fun d => "(" ++ ",".intercalate (d.map toString) ++ ")") ++ "] R["
     ++ " ".intercalate (hp.rs.map fun r => toString r.1 ++ "/" ++ toString r.2) ++ "] changed=" ++ toString bad)
 
+/-! ### the NumPy-backed generator (C17) -/
+
+def hexByte (b : Nat) : String :=
+  let d (x : Nat) : Char := if x < 10 then Char.ofNat (48 + x) else Char.ofNat (87 + x)
+  String.mk [d (b / 16), d (b % 16)]
+
+/-- `RNG state inc has32 u32 ops…` with ops `0` random, `1 k` getrandbits, `2 n` randbytes, `3` gauss,
+`4` snapshot (getstate), `5` restore (setstate of the last snapshot) -/
+def opRNG : P String := do
+  let st ← nat; let inc ← nat; let h ← tok; let u ← nat
+  let ops ← listOf (do
+    let t ← tok
+    if t = 1 then do let k ← tok; pure (t, k)
+    else if t = 2 then do let n ← tok; pure (t, n)
+    else pure (t, 0))
+  let w0 : Rng.Wrapper := ⟨⟨st, inc, h = 1, u⟩, none⟩
+  let step (acc : Rng.Wrapper × Option (Rng.Pcg × Option (Nat × Nat)) × List String) (op : Int × Int) :=
+    let (w, snap, outs) := acc
+    if op.1 = 4 then (w, some w.getstate, outs ++ ["S"])
+    else if op.1 = 5 then
+      match snap with
+      | some s => (w.setstate s, snap, outs ++ ["R"])
+      | none => (w, snap, outs ++ ["R"])
+    else
+      let rop : Rng.Op := if op.1 = 0 then .random else if op.1 = 1 then .getrandbits op.2
+        else if op.1 = 2 then .randbytes op.2.toNat else .gauss
+      let (o, w') := w.step rop
+      let s := match o with
+        | .float53 n => "F" ++ toString n
+        | .int x => "I" ++ toString x
+        | .bytes bs => "B" ++ String.join (bs.map hexByte)
+        | .gaussFresh a b => "G" ++ toString a ++ "," ++ toString b
+        | .gaussCached a b => "C" ++ toString a ++ "," ++ toString b
+        | .err => "E"
+      (w', snap, outs ++ [s])
+  let (_, _, outs) := ops.foldl step (w0, none, [])
+  pure ("ok " ++ " ".intercalate outs)
+
+/-! ### argument guards (C19) -/
+
+def pyArg : P Guard.PyArg := do
+  let k ← tok
+  if k = 0 then do let v ← tok; pure (.int v)
+  else if k = 1 then do let v ← tok; pure (.bool (v = 1))
+  else if k = 2 then do let v ← tok; pure (.npInt v)
+  else if k = 3 then do let a ← tok; let b ← nat; pure (.float a b)
+  else if k = 4 then pure .nan
+  else if k = 5 then pure .posInf
+  else if k = 6 then pure .negInf
+  else if k = 7 then do let a ← tok; let b ← nat; pure (.frac a b)
+  else if k = 8 then pure .str
+  else pure .none
+
+def showGErr : Guard.GErr → String
+  | .valueError => "reject ValueError"
+  | .typeError => "reject TypeError"
+  | .indexError => "reject IndexError"
+
+/-- `GUARD entry arg…` -/
+def opGUARD : P String := do
+  let e ← tok
+  if e = 0 then do
+    let a ← pyArg
+    pure (match Guard.countGuard a with | .ok n => "accept " ++ toString n | .error x => showGErr x)
+  else if e = 1 then do
+    let a ← pyArg
+    pure (match Guard.repeatGuard a with | .ok n => "accept " ++ toString n | .error x => showGErr x)
+  else if e = 2 then do
+    let a ← pyArg
+    pure (match Guard.parityGuard a with | .ok b => "accept " ++ (if b then "1" else "0") | .error x => showGErr x)
+  else if e = 3 then do
+    let n ← nat
+    let a ← pyArg
+    pure (match Guard.positionGuard n a with | .ok j => "accept " ++ toString j | .error x => showGErr x)
+  else if e = 4 then do
+    let a ← pyArg
+    pure (match Guard.limitGuard a with
+      | .ok none => "accept none"
+      | .ok (some (.int n)) => "accept int " ++ toString n
+      | .ok (some (.frac p q)) => "accept frac " ++ toString p ++ " " ++ toString q
+      | .error x => showGErr x)
+  else if e = 5 then do
+    let lo ← tok; let hi ← tok
+    pure (match Guard.withinGuard lo hi with | .ok _ => "accept" | .error x => showGErr x)
+  else if e = 6 then do
+    let a ← tok; let b ← tok
+    pure (match Guard.bothLimitsGuard (a = 1) (b = 1) with | .ok _ => "accept" | .error x => showGErr x)
+  else do
+    let a ← tok; let b ← nat
+    pure (match Guard.rollOutcomeGuard (a = 1) b with | .ok _ => "accept" | .error x => showGErr x)
+
 def dispatch (op : String) : P String :=
   match op with
   | "RWC" => opRWC
@@ -515,6 +608,8 @@ def dispatch (op : String) : P String :=
   | "PICKALL" => opPICKALL
   | "PROLL" => opPROLL
   | "HEAP" => opHEAP
+  | "RNG" => opRNG
+  | "GUARD" => opGUARD
   | "DENVALS" => opDENVALS
   | "ROLLRECS" => opROLLRECS
   | "EXPLODESPEC" => opEXPLODESPEC
